@@ -719,3 +719,150 @@ def delete_trees_obligation(o, tier, seed):
     shapes = SHAPES_THOROUGH if tier == "thorough" else SHAPES_QUICK
     r = run_delete_trees(ctx, shapes, time.time() + 900)
     return outcomes_from(o, r, "delete_trees", native, e2, Outcome)
+
+
+# ------------------------------------------------------------------------------------ make_tree_in_file
+def run_make_tree(ctx, max_items, deadline):
+    """make_tree_in_file over every item set S with 1 <= |S| <= max_items, all side decisions,
+    zero/non-zero normals, split_after 1..=3.  randomly_split_children is replaced by its contract
+    (L u R = S, disjoint) under a fairness assumption (both sides non-empty); its own MIR is
+    checked separately against that contract."""
+    from mirsym.models import model, one, unit, bitmap_of
+    eng = make_engine(ctx, max_depth=max_items + 1)
+
+    def m_random_split(e, st, callee, a, ty):
+        s = bitmap_of(e, a[1])
+        left = e.fresh("rand_left", z3.BitVecSort(U))
+        st.pc.append(left & ~s == BV(0, U))
+        st.pc.append(left != BV(0, U))
+        st.pc.append(left != s)
+        e.store(a[2], left)
+        e.store(a[3], s & ~left)
+        st.env.setdefault("assumptions", []).append("fair RNG: a random split leaves both sides non-empty")
+        return one(unit())
+    eng.models = [(re.compile(r"^randomly_split_children::<R>$"), m_random_split)] + eng.models
+    fn = find_fn(ctx.fns, r"writer::.*::make_tree_in_file$")
+    results = {"paths": 0, "violations": [], "unknown": [], "shapes": []}
+    items = z3.BitVec("item_set", U)
+    split_after = z3.BitVec("split_after", 64)
+    index = z3.BitVec("index", 16)
+    used_tids = [0, 2]
+    for n in range(1, max_items + 1):
+        pc = [popcount(items, 8) == BV(n, 8), z3.UGE(split_after, 1), z3.ULE(split_after, 3)]
+        ids = node_ids_value(eng, used_tids, pc)
+        env = {"store": {}, "frozen": {}, "stored_items": items, "leafs": items,
+               "tmp": {"puts": [], "deleted": [], "remap": []}, "sides": []}
+        frozen = Agg("FrozzenReader", None, {0: Ref(Cell(Opaque("leafs"))), 1: Ref(Cell(Opaque("trees"))),
+                                             2: Ref(Cell(ids))})
+        args = [Ref(Cell(writer_value(index))), Ref(Cell(options_value(split_after))), Ref(Cell(frozen)),
+                Ref(Cell(Opaque("rng"))), Ref(Cell(items)), Ref(Cell(Opaque("TmpNodes")))]
+        finals = eng.run(fn, args, env=env, pc=pc, deadline=deadline, max_paths=20000)
+        n_ok = 0
+        for f in finals:
+            results["paths"] += 1
+            extra = [("set:item_set", items), ("split_after", split_after)]
+
+            def viol(clause, m):
+                d = {}
+                for name, term in extra:
+                    v = m.eval(term, model_completion=True).as_long()
+                    d[name] = [i for i in range(U) if v >> i & 1] if name.startswith("set:") else v
+                results["violations"].append({"shape": f"|S|={n}", "clause": clause, "pre": None, "values": d})
+            if f.status in ("unknown", "unwind"):
+                results["unknown"].append(f"|S|={n}: {f.status}: {f.info}")
+                continue
+            if f.status == "panic":
+                ok, m = eng.check(f.pc)
+                if ok:
+                    viol("panics: " + f.info, m)
+                continue
+            rv = f.value
+            if not z3.is_true(z3.simplify(rv.disc == BV(0, 64))):
+                ok, m = eng.check(f.pc)
+                if ok:
+                    viol("returns Err although nothing failed", m)
+                continue
+            n_ok += 1
+            try:
+                root, count = rv.f[0].f[0], rv.f[0].f[1]
+                tmp = f.env["tmp"]
+                post, _ = apply_tmp(eng, {}, tmp)
+                put_ids = [z3.simplify(p).as_long() for p, _ in tmp["puts"]]
+                v = None
+                if len(set(put_ids)) != len(put_ids) or set(put_ids) & set(used_tids):
+                    ok, m = eng.check(f.pc)
+                    if ok:
+                        v = {"clause": f"node ids {put_ids} are not fresh and distinct (used: {used_tids})", "model": m}
+                if v is None:
+                    v = check_inv(eng, f.pc, post, root, items, items, "make_tree")
+                if v is None:
+                    ok, m = eng.check(f.pc, count != BV(len(put_ids), 64))
+                    if ok:
+                        v = {"clause": "the returned node count differs from the number of nodes written", "model": m}
+                if v is None:
+                    # [C15] every bucket written fits the capacity
+                    for t, node in post.items():
+                        if W.node_kind(node) == W.BUCKET:
+                            ok, m = eng.check(f.pc, z3.UGT(popcount(W.bucket_bits(eng, node), 64), split_after))
+                            if ok:
+                                v = {"clause": f"bucket {t} holds more items than split_after", "model": m}
+                                break
+            except E.Unknown as e:
+                results["unknown"].append(f"|S|={n}: {e}")
+                continue
+            if v is not None:
+                viol(v["clause"], v["model"])
+        results["shapes"].append({"shape": f"|S|={n}", "paths": len(finals), "ok_paths": n_ok})
+    results["queries"], results["solver_s"] = eng.queries, round(eng.solver_s, 2)
+    results["encoded"] = sorted(E.short(n) for n in eng.encoded)
+    return results
+
+
+def run_random_split(ctx, deadline):
+    """randomly_split_children from its MIR: L u R = S and L n R = 0 for every S with |S| <= 3."""
+    eng = make_engine(ctx)
+    fn = find_fn(ctx.fns, r"^randomly_split_children$")
+    results = {"paths": 0, "violations": [], "unknown": [], "shapes": []}
+    s = z3.BitVec("item_set", U)
+    pc = [popcount(s, 8) <= BV(3, 8)]
+    left, right = Cell(z3.BitVec("left_before", U)), Cell(z3.BitVec("right_before", U))
+    env = {"cells": (left, right)}
+    finals = eng.run(fn, [Ref(Cell(Opaque("rng"))), Ref(Cell(s)), Ref(left), Ref(right)], env=env, pc=pc,
+                     deadline=deadline)
+    for f in finals:
+        results["paths"] += 1
+        if f.status != "return":
+            results["unknown" if f.status in ("unknown", "unwind") else "violations"].append(
+                f"{f.status}: {f.info}" if f.status in ("unknown", "unwind") else
+                {"shape": "S", "clause": "panics: " + f.info, "pre": None, "values": {}})
+            continue
+        l, r = f.env["cells"][0].v, f.env["cells"][1].v
+        ok, m = eng.check(f.pc, z3.Or(l | r != s, l & r != BV(0, U)))
+        if ok:
+            results["violations"].append({"shape": "S", "clause": "random split is not a partition of the input",
+                                          "pre": None, "values": {"S": m.eval(s, model_completion=True).as_long()}})
+    results["shapes"].append({"shape": "|S|<=3", "paths": len(finals), "ok_paths": len(finals)})
+    results["queries"], results["solver_s"] = eng.queries, round(eng.solver_s, 2)
+    results["encoded"] = sorted(E.short(n) for n in eng.encoded)
+    return results
+
+
+def make_tree_obligation(o, tier, seed):
+    import e2
+    import native
+    from driver import Outcome
+    try:
+        ctx = e2.context(True)
+    except RuntimeError as e:
+        return [Outcome(o["id"], "mirsym", "inconclusive", str(e))]
+    n = 3 if tier == "thorough" else 2
+    r = run_make_tree(ctx, n, time.time() + (3000 if tier == "thorough" else 600))
+    r2 = run_random_split(ctx, time.time() + 300)
+    for k in ("paths", "queries"):
+        r[k] += r2[k]
+    r["solver_s"] = round(r["solver_s"] + r2["solver_s"], 2)
+    r["violations"] += r2["violations"]
+    r["unknown"] += r2["unknown"]
+    r["shapes"] += r2["shapes"]
+    r["encoded"] = sorted(set(r["encoded"]) | set(r2["encoded"]))
+    return outcomes_from(o, r, "make_tree", native, e2, Outcome)
